@@ -10,7 +10,12 @@ BLANKS = (32, 9, 13, 10)
 DEVIATIONS = {
     "bare-word-terminator": "an unquoted argument word ends only at space, newline or ')': a tab or CR after it is swallowed "
                             "(e.g. \"-name foo\\t-print\" parses as Name(\"foo\\t-print\"))",
+    "quotes-refused": "numeric, size, time and type arguments (and the numbers of -threads/-maxdepth/-mindepth) are read by parsers that do not "
+                      "accept the quoted spelling: `-uid 5` parses, `-uid '5'` is an error",
 }
+# call sites of the recorded deviation `quotes-refused` (every other keyword must accept all three spellings)
+QUOTES_REFUSED_SITES = ("-uid", "-gid", "-inum", "-links", "-mirror-count", "-stripe-count", "-size", "-amin", "-atime", "-cmin", "-ctime",
+                        "-mmin", "-mtime", "-type", "-threads")
 
 # word sequences chosen to contain every junction kind.  Items: plain words; ("bare", w) marks an unquoted argument word
 BASES = [
@@ -100,7 +105,7 @@ def run(ctx, rep, tier):
     samples.append(dict(kind="blank variants", bases=len(bases), gap_lengths=list(range(1, maxgap + 1)), blank_set=["space", "tab", "CR", "LF"], queries=n))
     # ------------------------------------------------------------- (ii) quoting style
     klen = 2 if tier == "quick" else 3
-    for kw in ("-name", "-fprint", "-pool"):
+    for kw in ("-name", "-fprint", "-pool", "-printf"):
         for k in range(1, klen + 1):
             cs = [sym_char() for _ in range(k)]
             # characters every style can carry, and that do not change lexing of a bare word
@@ -116,6 +121,48 @@ def run(ctx, rep, tier):
                     a = "%s %s -true" % (kw, v)
                     b_ = "%s %s%s%s -true" % (kw, "'" if j == 1 else '"', v, "'" if j == 1 else '"')
                     report(B, rep, "quoting", a, b_)
+    # ... and for arguments that are not free text: members of the argument language, bare vs quoted
+    def lang(kw):
+        """symbolic argument characters + assumptions: a short member-shaped word of the keyword's argument language"""
+        def dg():
+            c = sym_char()
+            return c, z3.And(z3.UGE(c, 48), z3.ULE(c, 57))
+        if kw == "-perm":
+            cs = [sym_char() for _ in range(3)]
+            return cs, [z3.And(z3.UGE(c, 48), z3.ULE(c, 55)) for c in cs]
+        if kw == "-type":
+            c = sym_char()
+            return [c], [z3.Or(*[c == ord(x) for x in "bcdpfls"])]
+        d1, a1 = dg()
+        d2, a2 = dg()
+        if kw == "-size":
+            u = sym_char()
+            return [d1, d2, u], [a1, a2, z3.Or(*[u == ord(x) for x in "bcwkMGT"])]
+        if kw in ("-amin", "-atime", "-cmin", "-ctime", "-mmin", "-mtime"):
+            u = sym_char()
+            sg = sym_char()
+            return [sg, d1, u], [a1, z3.Or(sg == ord("+"), sg == ord("-")), z3.Or(*[u == ord(x) for x in "smhd"])]
+        return [d1, d2], [a1, a2]
+    nonstring = ("-uid", "-links", "-size", "-mtime", "-type", "-perm", "-threads") if tier == "quick" else QUOTES_REFUSED_SITES + ("-perm",)
+    for kw in nonstring:
+        cs, ok = lang(kw)
+        runs = [B.parse([kw + " "] + cs + [" -true"], extra_assume=ok),
+                B.parse([kw + " '"] + cs + ["' -true"], extra_assume=ok),
+                B.parse([kw + ' "'] + cs + ['" -true'], extra_assume=ok)]
+        for j, style in ((1, "single"), (2, "double")):
+            eq = same_result(runs[0].I, runs[0].alts, runs[j].alts)
+            res, m = B.solve("quoting:%s:member:bare-vs-%s" % (kw, style), runs[0].assume, b_not(eq))
+            if res == z3.sat:
+                v = "".join(chr(model_char(m, c)) for c in cs)
+                q_ = "'" if j == 1 else '"'
+                a, b_ = "%s %s -true" % (kw, v), "%s %s%s%s -true" % (kw, q_, v, q_)
+                if kw in QUOTES_REFUSED_SITES and "quotes-refused" in known:
+                    da, db = native_pair(B, a, b_)
+                    if da.get("parse") == "ok" and db.get("parse") == "err":
+                        rep.violation("quotes-refused", DEVIATIONS["quotes-refused"] + "; witness %r vs %r" % (a, b_), dict(a=a, b=b_))
+                        continue
+                report(B, rep, "quoting", a, b_)
+    samples.append(dict(kind="quoting styles of non-text arguments", keywords=list(nonstring)))
     # a quoted argument carries EVERY character except its own quote character (blanks, parentheses, the other quote ...): the tree
     # holds exactly the text between the quotes
     from spec import vocab as V_
